@@ -95,7 +95,7 @@ def run(ctx):
     samples = []
     n = 0
     tries = 0
-    target = ctx.n(260, 5000)
+    target = ctx.n(600, 5000)
     while n < target and tries < target * 3:
         tries += 1
         try:
